@@ -1,12 +1,12 @@
 SPECIFICATION Spec
 CONSTANTS
-  Mode = "direct"
+  Mode = "plugin"
   Flows = FALSE
-  MaxLines = 3
+  MaxLines = 2
   MaxBatch = 2
   MaxTicks = 1
   MaxRestarts = 1
-  MaxWrites = 0
+  MaxWrites = 1
   Bug = "none"
-INVARIANTS Accept
+INVARIANTS Accept RefreshTakesEffect NeverInvalidTree
 CHECK_DEADLOCK FALSE
